@@ -1,29 +1,37 @@
-"""Applies a seeded change to /repo, runs checks, and always undoes it.
+"""Runs checks against a seeded change.
 
-usage: tools_seed.py <seeded/<id> dir> [ID ...]   (default IDs: meta.json "checks" or the property)
+The change is applied to a scratch git worktree of /repo's HEAD (outside /repo and /verif) and
+the checks run with VERIF_REPO pointing at it, so /repo itself - and anything running against
+it in the background - is never touched; the worktree is removed afterwards. This is
+equivalent to `git -C /repo apply patch.diff; ./check ...; git -C /repo checkout -- .`.
+
+usage: tools_seed.py <seeded/<id> dir> [ID ...]   (default: the seeded property's own check)
+       SEED_TIER=thorough to use the thorough tier.
 """
-import json, os, subprocess, sys
+import json, os, shutil, subprocess, sys, tempfile
 
 def main():
   d = os.path.abspath(sys.argv[1])
   meta = json.load(open(os.path.join(d, 'meta.json'))) if os.path.exists(os.path.join(d, 'meta.json')) else {}
   ids = sys.argv[2:] or meta.get('checks') or [meta.get('property')]
-  st = subprocess.run(['git', '-C', '/repo', 'status', '--porcelain', '--untracked-files=no'], capture_output=True, text=True).stdout
-  if st.strip():
-    print('refusing: /repo has uncommitted tracked changes'); return 2
-  r = subprocess.run(['git', '-C', '/repo', 'apply', os.path.join(d, 'patch.diff')], capture_output=True, text=True)
-  if r.returncode:
-    print('patch does not apply:', r.stderr); return 2
+  tmp = tempfile.mkdtemp(prefix='seedrun-')
+  w = os.path.join(tmp, 'w')
+  subprocess.run(['git', '-C', '/repo', 'worktree', 'add', '-q', '--detach', w, 'HEAD'], check=True)
   out = {}
   try:
+    r = subprocess.run(['git', '-C', w, 'apply', os.path.join(d, 'patch.diff')], capture_output=True, text=True)
+    if r.returncode:
+      print('patch does not apply:', r.stderr); return 2
+    env = dict(os.environ, VERIF_REPO=w)
     for pid in ids:
       tier = os.environ.get('SEED_TIER', 'quick')
-      r = subprocess.run(['./check', pid, '--tier', tier, '--no-evidence'], cwd='/verif', capture_output=True, text=True)
+      r = subprocess.run(['./check', pid, '--tier', tier, '--no-evidence'], cwd='/verif', env=env, capture_output=True, text=True)
       lines = [l for l in r.stdout.splitlines() if 'new-violation-class' in l or l.startswith(pid + ' ') or l.startswith('INCONCLUSIVE')]
       print(f'[{pid}] exit={r.returncode}'); print('\n'.join(lines[-8:])[:2000])
       out[pid] = r.returncode
   finally:
-    subprocess.run(['git', '-C', '/repo', 'checkout', '--', '.'], check=True)
+    subprocess.run(['git', '-C', '/repo', 'worktree', 'remove', '--force', w])
+    shutil.rmtree(tmp, ignore_errors=True)
   print('RESULT', json.dumps(out))
   return 0
 
